@@ -2,6 +2,7 @@ import Driver.HistCmd
 import Driver.SolverCmd
 import Driver.StrCmd
 import Driver.NetCmd
+import Driver.PathsCmd
 open Lean PyRates.Driver
 
 def dispatch (comp : String) (j : Json) : Except String Json :=
@@ -11,6 +12,7 @@ def dispatch (comp : String) (j : Json) : Except String Json :=
   | "str" => strCmd j
   | "net" => netCmd j
   | "nettraj" => netTrajCmd j
+  | "paths" => pathsCmd j
   | _ => .error s!"unknown component {comp}"
 
 partial def loop (h : IO.FS.Stream) (out : IO.FS.Stream) : IO Unit := do
